@@ -1245,3 +1245,67 @@ def rule_argument_flow(ctx, base_tq, rule='rule-argument-flow'):
         ctx.check(not problems, rule, inst, comp.qname,
                   '`%s` reaches every retrieve/restart, `%s` reaches the final sort (%d call sites)' % (sel, srt, n)
                   if not problems else '; '.join(problems))
+
+
+# ---------------------------------------------------------------------------------------------------
+# Ritz data belong to the current call (must-pass-through)
+# ---------------------------------------------------------------------------------------------------
+def ritz_data_of_current_call(ctx, base_tq, rule='ritz-data-retrieved-by-this-call'):
+    """At entry of compute() the stored Ritz values / estimates / vectors are in an unknown state: after an earlier compute()
+    on the same object their first nev entries were ordered by that call's selection rule and -- in the shift-and-invert
+    solvers, whose sort_ritzpair override maps nu to lambda in place -- are no longer Ritz values of H at all.  Every member
+    that reads them inside compute() (the convergence test, the restart shifts, the final back-transform and sort) must
+    therefore be preceded, on every path from entry, by a call that rebuilds ALL of them from H under the selection rule of
+    THIS call.  Necessary for: the selection rule of the call decides the reported pairs (C04), the spectral back-transform
+    is applied exactly once (C03, C04), the flags describe the current pairs (C01, C02, C05)."""
+    n = 0
+    for comp in ctx.F.insts(base_tq + '::compute'):
+        m = BaseModel(ctx, comp)
+        inst = short(base_tq) + '::compute'
+        ptypes = [comp.locals[v]['type'] for v in comp.params]
+        sel = [comp.locals[v]['name'] for v, t in zip(comp.params, ptypes) if t == 'Spectra::SortRule']
+        if len(sel) != 2:
+            raise AnalysisBroken('%s: compute() has %d SortRule parameters' % (comp.record, len(sel)))
+        sel = sel[0]
+        fields = set(f['name'] for f in m.rec['fields'])
+
+        def gets_selection(c):
+            return any(a.get('t') == 'Spectra::SortRule' and sym(comp, a, inline=False) == ('P', sel) for a in comp.call_args(c))
+        # the retriever: the call handed `selection` whose write set over this object's fields is smallest
+        cands = []
+        for c in comp.walk():
+            if c['k'] == 'CXXMemberCallExpr' and target_methods(m, comp, c) and gets_selection(c):
+                w = set(p[0] for p in ctx.E.call_may_write(comp, c) if p and p[0] in fields)
+                cands.append((len(w), c['id'], w, c))
+        if not cands:
+            raise AnalysisBroken('%s: no member call in compute() receives the selection rule' % comp.record)
+        cands.sort(key=lambda t: t[:2])
+        ritz = cands[0][2] - {m.flag}
+        if len(ritz) < 3:
+            raise AnalysisBroken('%s: the retrieving member %s writes only %s' % (comp.record, cands[0][3].get('callee'), sorted(ritz)))
+
+        def rebuilds(c):
+            if c['k'] != 'CXXMemberCallExpr' or not target_methods(m, comp, c) or not gets_selection(c):
+                return False
+            # every target must itself start by rebuilding: accept the retriever, or a member all of whose paths reach the retriever
+            tg = target_methods(m, comp, c)
+            return all(t.name == ctx.F.resolve(cands[0][3]).name for t in tg)
+
+        def reads_ritz(c):
+            if c['k'] not in ('CXXMemberCallExpr', 'CallExpr', 'CXXOperatorCallExpr') or rebuilds(c):
+                return False
+            r = set(p[0] for p in ctx.E.call_may_read(comp, c) if p)
+            return bool(r & ritz)
+        readers = paths.positions_of(comp, reads_ritz)
+        if len(readers) < 3:
+            raise AnalysisBroken('%s: only %d readers of the Ritz data in compute()' % (comp.record, len(readers)))
+        hit = paths.search(comp, [], stop=rebuilds, target=reads_ritz, include_entry=True)
+        n += 1
+        ctx.check(hit is None, rule, inst, comp.qname,
+                  'every reader of %s in compute() (%d call sites) is preceded on every path from entry by %s(%s)' %
+                  (sorted(ritz), len(readers), cands[0][3].get('callee'), sel) if hit is None else
+                  'a path from the entry of compute() reaches a reader of the stored Ritz data %s without %s(%s): on a compute() that follows another compute() '
+                  'the data are those the earlier call left behind (ordered by its selection rule; in the shift-and-invert solvers already mapped from nu to lambda, '
+                  'so the back-transform is applied a second time)' % (sorted(ritz), cands[0][3].get('callee'), sel), path=hit)
+    if n < 1:
+        raise AnalysisBroken('%s: no compute() instantiation' % base_tq)
